@@ -61,3 +61,20 @@ claim("C20",
       "Function-level correspondence of all Converter methods, exhaustive over all orders of dimensions with <= 3 (quick) / 4 (thorough) values and all positions, random up to 5 dims x 50.",
       "numpy/pandas containers are trusted after canonicalisation.",
       "Lean 4 proof (first-occurrence lemma for the nearest-element lookup) + exhaustive differential correspondence", "DESIGN.md section 5, C20")
+claim("C16",
+      "GFO.C16.diag_covers / orth_covers: for EVERY tuple of dimension sizes, every step_size dividing |S| and both directions the first |S| iteration steps are positions of the box and pairwise distinct "
+      "(mixed-radix decoders injective, closed forms of both pointer machines, coprime stride from get_direction). Backend-level correspondence of pos_l with the model, exhaustive over shapes with sizes 1-6 in 1-4 dims, all dividing step sizes, both directions, plus large 2-d shapes.",
+      "Without constraints, as the property states. Orthogonal int(x/|S|) is float division: exact below 2^53.",
+      "Lean 4 proof (Nat.ModEq arithmetic, induction on the pointer machine) + exhaustive differential correspondence", "DESIGN.md section 5, C16")
+claim("C01",
+      "Kernel theorems GFO.C01.*: conv2pos / _move_part / move_spiral's clip-cast / move_random / _init_grid_search / vertices / both grid decoders return index vectors in [0,size-1] for every input under exactly the stated hypotheses (noNan where a nan is cast to INT64_MIN, with witnesses); "
+      "driver_evaluates_reported: the parameter set handed to the objective is dims[k][pos[k]] of the recorded position, no index wrap. Function-level correspondence on boundary vectors, replay of recorded conv2pos/_move_part calls, "
+      "and the statement monitored on real runs of all 22 optimizers (positions, objective and constraint arguments, nan audit).",
+      "Partial: the composition of kernels inside each optimizer's iterate is covered by correspondence/monitor, not by a theorem per optimizer; float expressions feeding the kernels are oracle inputs.",
+      "Lean 4 proof of the position kernels + driver theorem + differential correspondence + monitor on all optimizers", "DESIGN.md section 5, C01")
+claim("C02",
+      "GFO.C02.initializer_feasible / addNRandom_feasible: every initial position (random, grid, vertices, warm start, fill-rest, population padding) is feasible and there are n_inits of them, for every initialize dict, space and feasibility oracle; "
+      "firstFeasible_spec / guarded_feasible: the retry loops return the first candidate that passed. Function-level correspondence of the real Initializer with the model from recorded draws and verdicts; "
+      "on real runs of all 22 optimizers under constraints: objective arguments, search_data, best_para feasible and every emitted position preceded by a positive constraint check.",
+      "Partial: that each optimizer's iterate emits only after a positive check is established per run from the constraint log, not by a theorem per optimizer.",
+      "Lean 4 proof (Initializer model) + differential correspondence + monitor on all optimizers", "DESIGN.md section 5, C02")
